@@ -407,3 +407,44 @@ func (f *FS) CloneKeepSync() *FS {
 	}
 	return c
 }
+
+// ZeroRange returns a copy in which n bytes of file p starting at off read as
+// zeros: a write that was lost by a power failure although later writes of the
+// same file reached the disk (the file length had already been extended).
+func (f *FS) ZeroRange(p string, off, n int) *FS {
+	c := f.PowerLoss("", 0, nil)
+	if fl := c.files[p]; fl != nil {
+		for i := off; i < off+n && i < len(fl.data); i++ {
+			fl.data[i] = 0
+		}
+	}
+	return c
+}
+
+// UnsyncedWrites lists the writes of the first k logged operations that no
+// later Sync of the same file covers.
+func UnsyncedWrites(log []Op, k int) []Op {
+	var out []Op
+	for i := 0; i < k && i < len(log); i++ {
+		op := log[i]
+		switch op.Kind {
+		case OpWrite:
+			out = append(out, op)
+		case OpSync, OpCreate, OpRemove:
+			kept := out[:0]
+			for _, w := range out {
+				if w.Path != op.Path {
+					kept = append(kept, w)
+				}
+			}
+			out = kept
+		case OpRename:
+			for j := range out {
+				if out[j].Path == op.Path {
+					out[j].Path = op.Path2
+				}
+			}
+		}
+	}
+	return out
+}
